@@ -6,7 +6,7 @@ from ..cmp import cmp_record
 from .. import gen, oracle, graphs
 
 MODULE = "Momtrop.Props.C06"
-THEOREMS = []
+THEOREMS = ["Momtrop.C06.scan_spec", "Momtrop.C06.sampleEdge_sound", "Momtrop.C06.sampleEdge_first", "Momtrop.C06.sampleEdge_total"]
 RULE = ("tables of accepted catalogue/random graphs (E<=6 quick / 8 thorough) plus one-loop n-gons with k/20 weights (whose rounded "
         "cumulative sums often end below 1); every subgraph with >=2 edges (capped per table) x u in {random, every cumulative "
         "boundary c_k and c_k -+ 1ulp, 0, 2^-1074, 1-2^-53, 1-2^-52, exactly representable grid values}; through the hook and, for the "
